@@ -1,3 +1,5 @@
 pub mod layout;
 pub mod matrix;
 pub mod program;
+pub mod findings;
+pub mod tree;
